@@ -241,8 +241,15 @@ func (c *c18) encCase(fx encFix, kind, cls string, v []byte) {
 			// them grow and resume (an escape-dense string several times within one value); the text must not depend on the
 			// capacity and is judged like the converter's
 			wlit := ""
-			for k, cp := range []int{0, 1, 7, len(v) / 2, len(v), len(v) + 2, 2*len(v) + 3} {
-				buf := append(make([]byte, 0, cp+3), "k=:"...)
+			caps := []int{0, 1, 7, len(v) / 2, len(v), len(v) + 2, 2*len(v) + 3, 6*len(v) + 1, 6*len(v) + 2, 6*len(v) + 3}
+			if kind != "str" { // every amount of room around the longest number texts (an int64 has up to 20 bytes, a double up to 25)
+				caps = caps[:0]
+				for cp := 0; cp <= 40; cp++ {
+					caps = append(caps, cp)
+				}
+			}
+			for k, cp := range caps {
+				buf := append(make([]byte, 0, cp+3), "k=:"...) // cp bytes of room behind the prefix
 				switch kind {
 				case "i64":
 					buf = conv.VerifEncodeInt64(buf, fromBE8(v))
